@@ -7,7 +7,7 @@
                 of Messages, with the wrap-around inside the behaviours);
       clause 2  PerfectInOrder + PerfectExactlyOnce on the perfect network for every MTU >= header + 1 of a sweep;
     vacuity: Reach_* configurations in which each invariant FAILS (id comparison / offset comparison / source key dropped from
-    the acceptance test, IDSPACE = 2 = the one hole of the design, the strict clause 2 while F31 / F32 are open).
+    the acceptance test, IDSPACE = 2 = the one hole of the design, the code as it was before the repairs of F31 / F32 against clause 2).
  2. spec -> code: TLC dumps the state graph of small instances (RECORD = TRUE), tools/pathcover.py covers EVERY transition,
     harness/tun.cpp replays each behaviour on real sender / receiver gateways connected by a scripted PacketDataIO, with slave =
     exact raw-data style / RawDataMessageIOGateway / MessageIOGateway / none, compares packets, deliveries and the projected
@@ -15,7 +15,8 @@
     thorough adds deeper instances and -simulate behaviours.
  3. code -> spec: seeded random long runs (about 20 packets, 1-3 senders, MTU sweep up to 4096, loss / duplication /
     reordering or perfect), TunAbs monitor on all of them, the event logs of a subset validated by TLC (TunAbsTrace.tla).
- 4. directed cases: known findings F15, F31, F32; id wrap-around at 2^32 and 2^24; the id-collision hole (assumption).
+ 4. directed cases: known finding F15; the inputs of the repaired findings F31 and F32; id wrap-around at 2^32 and 2^24;
+    the id-collision hole (assumption).
 """
 import concurrent.futures as cf, json, os, re, threading, time
 import vlib, pathcover
@@ -136,7 +137,7 @@ def _run(v, tier, seed):
     def run_san(args, what, timeout): run_h(args, what, timeout, True)
 
     # ---------------------------------------------------------------------------------------------------------------
-    # 4. directed cases first: which of the known findings are still in the code decides how the model is instantiated
+    # 4. directed cases
     def directed():
         rep = W("directed.ndjson")
         run_san(["directed", rep], "tun directed", 300)
@@ -155,8 +156,9 @@ def _run(v, tier, seed):
             v.drift += 1; vlib.log("DRIFT property=C12 directed case %s: %s" % (r["case"], "; ".join(r["drift"])[:400]))
         if r.get("info"): infos.append(r)
         samples.append({"kind": "directed case", "case": r["case"], "note": r.get("note"), "reproduced": r.get("reproduced")})
-    dev_tun = ("F31",) if "F31" in present else ()
-    dev_mini = ("F32",) if "F32" in present else ()
+    # the model is the code as it is now: no named deviation (F31 and F32 are repaired; the switches remain for the vacuity guards)
+    dev_tun = ()
+    dev_mini = ()
 
     # ---------------------------------------------------------------------------------------------------------------
     # 1. model checking
@@ -254,7 +256,7 @@ def _run(v, tier, seed):
         # several senders distinguished by source address: the two differ in the host only (u24_2s) / in the port only (u24_2sb)
         gen_tun("u24_2s", ["exact", "msg"], 24, senders=(1, 2), mtu=2, sizes=(2,), msgs=1, modes='{"all"}')
         gen_tun("u24_2sb", ["exact"], 24, addrmode=1, senders=(1, 2), mtu=3, sizes=(0, 3), msgs=2 if not quick else 1, copies=1 if not quick else 2, modes='{"all"}')
-        # receiver limit (F31 as coded while it is open)
+        # receiver limit: an over-limit Message shares packets with Messages that fit (the circumstances of repaired F31)
         gen_tun("u24_lim", ["exact", "raw"], 24, maxin=2, mtu=5, sizes=(1, 2, 3), msgs=3 if not quick else 2, modes='{"all"}')
         # perfect network: clause 2 judged at the end of every behaviour that ends quiet
         # MTU 5 / 4: room is left after a short fragment, so packets are shared and the next Message is split by what is left
@@ -293,8 +295,8 @@ def _run(v, tier, seed):
             S.append(("sim_3s", ex.submit(simulate, "sim_3s", "TunImpl", n, hc("tun", 24, 3, senders=3, addrmode=1), ["exact"], int(6000 * scale))))
             n = tun_cfg("gen_Sim_msg.cfg", record=True, hist=True, senders=(1, 2), mtu=3, msgs=4, sizes=(2, 3, 5, 7), dev=dev_tun, invs=["PrintDone"])
             S.append(("sim_msg", ex.submit(simulate, "sim_msg", "TunImpl", n, hc("tun", 24, 3, senders=2), ["msg", "none"], int(4000 * scale))))
-            n = mini_cfg("gen_Sim_mini.cfg", record=True, hist=True, senders=(1, 2), sizes=(0, 40, 80, 120), mtu=200, msgs=4, comp=True, dev=dev_mini, invs=["PrintDone"])
-            S.append(("sim_mini", ex.submit(simulate, "sim_mini", "MiniTunImpl", n, hc("mini", 1, 200, senders=2, idbase=16777214, firstid=3, idspace=4, comp=True), ["exact"], int(4000 * scale))))
+            n = mini_cfg("gen_Sim_mini.cfg", record=True, hist=True, senders=(1, 2), sizes=(0, 40, 80, 120), mtu=200, msgs=4, comp=True, pidspace=64, firstpid=62, dev=dev_mini, invs=["PrintDone"])
+            S.append(("sim_mini", ex.submit(simulate, "sim_mini", "MiniTunImpl", n, hc("mini", 1, 200, senders=2, idbase=16777214, firstid=62, idspace=64, comp=True), ["exact"], int(4000 * scale))))
 
         # -----------------------------------------------------------------------------------------------------------
         # the binding rejects corrupted inputs: one corrupted field of a behaviour step -> the replay reports it; one corrupted
@@ -390,10 +392,10 @@ def _run(v, tier, seed):
         R("TunImpl", tun_cfg("gen_Reach_nokey.cfg", senders=(1, 2), sizes=(2,), mtu=2, msgs=1, modes='{"all"}', dev=dev_tun + ("nokey",), invs=["NeverDeliversUnsent"]), "NeverDeliversUnsent", "one ReceiveState for all sources")
         if not quick: R("TunImpl", tun_cfg("gen_Reach_lossy_exactly_once.cfg", faults='{"Lose"}', sizes=(1,), mtu=2, msgs=2, modes='{"all"}', dev=dev_tun, invs=["PerfectExactlyOnceStrict"]), None, "control: the strict clause 2 is not claimed (and not violated) when the network may lose")
         R("TunImpl",
-          tun_cfg("gen_Reach_F31.cfg", faults="{}", maxin=2, sizes=(1, 3), mtu=6, msgs=2, modes='{"all"}', dev=("F31",), invs=["PerfectExactlyOnceStrict"]), "PerfectExactlyOnceStrict", "F31 as coded against the property as stated")
-        if not quick: R("TunImpl", tun_cfg("gen_Reach_F31_repaired.cfg", faults="{}", maxin=2, sizes=(1, 3), mtu=6, msgs=2, modes='{"all"}', dev=(), invs=["PerfectExactlyOnceStrict"]), None, "control: with the drafted repair of F31 the property as stated holds")
-        R("MiniTunImpl", mini_cfg("gen_Reach_F32.cfg", faults="{}", sizes=(0, 20), mtu=60, msgs=2, dev=("F32",), invs=["PerfectExactlyOnceStrict"]), "PerfectExactlyOnceStrict", "F32 as coded against the property as stated")
-        if not quick: R("MiniTunImpl", mini_cfg("gen_Reach_F32_repaired.cfg", faults="{}", sizes=(0, 20), mtu=60, msgs=2, dev=(), invs=["PerfectExactlyOnceStrict"]), None, "control: with the drafted repair of F32 the property as stated holds")
+          tun_cfg("gen_Reach_F31.cfg", faults="{}", maxin=2, sizes=(1, 3), mtu=6, msgs=2, modes='{"all"}', dev=("F31",), invs=["PerfectExactlyOnceStrict"]), "PerfectExactlyOnceStrict", "the code before the repair of F31 against the property as stated")
+        if not quick: R("TunImpl", tun_cfg("gen_Reach_F31_repaired.cfg", faults="{}", maxin=2, sizes=(1, 3), mtu=6, msgs=2, modes='{"all"}', dev=(), invs=["PerfectExactlyOnceStrict"]), None, "control: the code as it is now satisfies the property as stated")
+        R("MiniTunImpl", mini_cfg("gen_Reach_F32.cfg", faults="{}", sizes=(0, 20), mtu=60, msgs=2, dev=("F32",), invs=["PerfectExactlyOnceStrict"]), "PerfectExactlyOnceStrict", "the code before the repair of F32 against the property as stated")
+        if not quick: R("MiniTunImpl", mini_cfg("gen_Reach_F32_repaired.cfg", faults="{}", sizes=(0, 20), mtu=60, msgs=2, dev=(), invs=["PerfectExactlyOnceStrict"]), None, "control: the code as it is now satisfies the property as stated")
         R("MiniTunImpl", mini_cfg("gen_Reach_blind.cfg", faults="{}", sizes=(20,), mtu=60, msgs=1, dev=dev_mini + ("blind",), invs=["PerfectExactlyOnce"]), "PerfectExactlyOnce", "receiver ignoring the level byte")
 
         # -----------------------------------------------------------------------------------------------------------
@@ -477,10 +479,10 @@ def _run(v, tier, seed):
            "executions_validated_by_tlc": ex_tot["traces_written"], "trace_lines_validated_by_tlc": ex_tot["trace_lines"],
            "evaluations": tot["replays"] + ex_tot["runs"], "distinct_nontrivial": tot["followed"],
            "rule": "behaviours = path cover of EVERY transition of the TLC state graphs of the generation instances of TunImpl / MiniTunImpl (distinct by construction: each adds an uncovered transition; simulated behaviours de-duplicated by hash), each replayed under 1-4 slave gateway kinds; non-trivial = followed to the end with every step's packets, deliveries and projected private state equal to the specification's; random runs counted in evaluations only",
-           "exhaustive": True, "random_run_batches": ex_notes, "model_runs": mc_notes, "generation_instances": gen_notes, "known_findings_in_the_model": sorted(set(dev_tun + dev_mini)), "samples": samples[:12]}
+           "exhaustive": True, "random_run_batches": ex_notes, "model_runs": mc_notes, "generation_instances": gen_notes, "deviations_in_the_model": sorted(set(dev_tun + dev_mini)), "samples": samples[:12]}
     assumptions = ["message ids never collide among the Messages a receiver can still see: the acceptance test identifies a Message by its 32-bit id, total size and expected offset only, so after a full wrap of the id (2^32 consecutive Messages of one sender with every fragment in between lost) the head of an old Message and the tail of a new one of EQUAL size would be combined; TLC exhibits it with IDSPACE = 2 (Reach_IdCollision.cfg) and the harness reproduces it on the real code by winding the id counter back (directed case id-collision-hole); not claimed",
                    "the network loses, duplicates and reorders whole packets but does not corrupt them (hostile packets are property C02)",
                    "slave-encoded Messages stay at or below 1168 bytes in every configuration with a slave gateway (known finding F15); larger Messages are exercised without a slave",
                    "TLC instances: at most 3 Messages per sender, sizes up to 2 MTU + 1, at most 2 copies of a packet; the MTU sweep of the perfect network is H+1 .. H+10 in units (H = 1, 2, 3) in TLC and 17/25 .. 4096 bytes in the random runs",
-                   "the random runs judge clause 2 only for Messages not covered by the predicate of an open known finding (F15, F31, F32); those are reported as KNOWN-FINDING when lost"]
+                   "clause 2 is judged for every Message that fits the documented limits except those covered by the predicate of open known finding F15 (reported as KNOWN-FINDING when lost); Messages outside the limits (tunnel: larger than the receiver's maximum; mini tunnel: larger than a packet) may or may not arrive"]
     return "model_checking", cov, assumptions
